@@ -12,6 +12,12 @@ CHECKS = {
         "Trusts the reference interpreter (refmodel/interp.rs) as the reading of the manual; programs it marks undefined are skipped and counted; diverging programs are compared on a prefix.",
         "DESIGN.md §3 C01",
     ),
+    "C02": (
+        "exhaustive enumeration of the operator x operand-type matrix over boundary values, of all operator pairs/triples in all tree shapes and parenthesisations, and of all short literal spellings, executed on the real Operation/Function entry points, parser and interpreter against a reference evaluator",
+        "Every binary/unary operator is applied to every ordered pair of 44 boundary values of the four types (result type = returned variant, compared exactly; through PRINT with two type probes); every ordered pair (and triple) of operators is evaluated in every tree shape with minimal and full parentheses; every literal spelling up to 6/7 characters that the manual classifies is checked in the parsed statement; 14 numeric functions and assignment to each variable type. Exhaustive within these bounds.",
+        "Reference evaluator refmodel/value.rs (manual chapter 1). Exactly rounded operations are compared bit for bit, ^ and transcendental functions within 600 ulp / underflow to zero accepted; comparisons of floats nearer than 4 epsilon are skipped.",
+        "DESIGN.md §3 C02",
+    ),
     "C03": (
         "exhaustive enumeration of all short strings / token sequences / single-token corpus mutants / length-limit shapes entered into the real interpreter under a watchdog and subprocess isolation, plus explicit-state search of the UI calling protocol (enter, execute quanta, interrupt, listing snapshots, loads) with a full-state digest",
         "Every input of the stated bounded families is entered as a direct line, a stored line and a stored line followed by RUN; every history of the protocol machine up to depth 6 (quick) / 8 (thorough) is executed. On each: no panic or abort, every call returns (20 s watchdog, hangs and crashes attributed to one case by the parent process), and after at most one interrupt the interpreter is stopped and PRINT 1 works. Exhaustive within the bounds.",
@@ -53,6 +59,18 @@ CHECKS = {
         "Every program of the bounded space is re-laid-out (filler REM / ' / empty lines at every gap, empty statements at every boundary, every split of a multi-statement line, direct statement over different stored programs, direct list vs one-line program) and must run to the same transcript after mapping line numbers. Exhaustive within the bound.",
         "Differential (implementation vs implementation); runs cut by the budget are compared on the common prefix; TRON programs are not split and get no trailing filler line.",
         "DESIGN.md §3 C20",
+    ),
+    "C05": (
+        "exhaustive enumeration of all short strings over four alphabets (plus length-limit shapes) pushed through Line::new -> to_string -> Line::new -> Listing::load_str / Listing::line and compared clause by clause",
+        "Every string up to length 4 over the 47-symbol lexical alphabet and up to length 6 over numeric, operator and word alphabets (thorough: 5 / 7 / 8 / 6), as a direct line and with a line number, must list to text that re-enters with the same number and the same parsed statements (or is rejected in both cases), is a fixed point when it parses, keeps string and remark text, and survives load_str and Listing::line; lines at the 1024-byte limit included. Exhaustive within the bounds.",
+        "SAVE/LOAD is checked at the two library calls that path makes; longer lines only through periodic shapes.",
+        "DESIGN.md §3 C05",
+    ),
+    "C07": (
+        "exhaustive enumeration of all argument tuples of a boundary universe for every string function, operator and MID$ assignment, through the public entry points and through the interpreter, against a Vec<char> reference",
+        "All tuples over 12 boundary strings (ASCII, multi-byte, empty, 255 long) plus all strings up to length 3 (thorough 5) over {a,b,e-acute}, 14 positions/lengths, 12 patterns, 12 character codes and 40 VAL inputs are evaluated for LEN LEFT$ RIGHT$ MID$ INSTR ASC CHR$ STRING$ SPC STR$ VAL HEX$ OCT$, +, six comparisons and MID$ assignment; in-domain results must equal the reference exactly, out-of-domain arguments must give a BASIC error, stores above 255 characters STRING TOO LONG. Exhaustive within the universe.",
+        "Reference refmodel/funcs.rs; positions or counts beyond the Integer range are skipped as undefined.",
+        "DESIGN.md §3 C07",
     ),
     "C08": (
         "exhaustive enumeration of operand tuples (all 2^32 pairs per operator in the thorough tier) on the real Operation/Function entry points and through the VM, against an exact-arithmetic reference",
